@@ -88,7 +88,12 @@ def _c07_ok(kind, algo, values, param, kw, fmts=("list", "array", "dict", "intdi
             return f"presentation {fmt} gives sums {[str(s) for s in ssums]}, the plain list gives {[str(s) for s in ref]}"
         # named result is a correct partition / packing / cover of the names whose values reproduce the sums
         got, want = flat_counter(lists), Counter(names)
-        if kind == "partition" or algo in PACKERS:
+        cp = kw.get("copies")
+        if cp is not None:           # an option indexed by item POSITION: name i is due copies[i] times
+            want = Counter({nm: (cp[i] if isinstance(cp, (list, tuple)) else cp) for i, nm in enumerate(names)}) if len(set(names)) == len(names) else None
+        if want is None:
+            pass                     # plain list with repeated values: occurrences are checked through the sums
+        elif kind == "partition" or algo in PACKERS:
             if algo == "bc":
                 v = val_of(mapping)
                 if (got - want) or any(v(x) != 0 for x in (want - got)):
@@ -112,7 +117,7 @@ def c07_case(inp):
     kw = dict(inp.get("kw") or {})
     if "cg" in inp:
         kw.update(cg_kwargs(inp["cg"][0], tuple(inp["cg"][1])))
-    r = _c07_ok(inp["kind"], inp["algo"], inp["values"], inp["param"], kw, tuple(inp.get("fmts") or ("list", "array", "dict", "intdict", "names")))
+    r = _c07_ok(inp["kind"], inp["algo"], inp["values"], inp["param"], kw, tuple(inp.get("fmts") or ("list", "array", "dict", "intdict", "names", "dict+valueof")))
     if r is not None:
         raise deal.PostContractError("C07: " + r)
     return nontrivial(inp["values"])
@@ -560,6 +565,30 @@ def _c18_agree_ok(values, k):
             if len(s) == k and spec.objective_value(objname, s) < best:
                 return f"heuristic {h} beats the 'optimal' value {best} for {objname}"
     return None
+
+
+def _c18_agree_fast_ok(values, k):
+    """Medium size, many instances: the search-based exact algorithms for the difference objective report the same optimum (their pruning rules are
+    independent of one another, so a rule that cuts an optimal branch on a rare instance shows as a disagreement)"""
+    vals = {"cg": _value_of("cg", values, k, "difference", cg_kwargs("difference", (True, True, False, True))), "ckk": _value_of("ckk", values, k, "difference", {}),
+            "snp": _value_of("snp", values, k, "difference", {})}
+    if 2 <= k <= 4:
+        vals["rnp"] = _value_of("rnp", values, k, "difference", {})
+    if len(set(vals.values())) != 1:
+        return f"exact algorithms disagree on the smallest difference: { {a: str(v) for a, v in vals.items()} }"
+    for objname in ("min-max", "max-min"):
+        a = _value_of("cg", values, k, objname, cg_kwargs(objname, (True, True, False, True)))
+        b = _value_of("cg", values, k, objname, cg_kwargs(objname, (False, False, False, False)))
+        if a != b:
+            return f"complete greedy with and without its pruning switches disagrees on {objname}: {a} vs {b}"
+    return None
+
+
+def c18_agree_fast_case(inp):
+    r = _c18_agree_fast_ok(inp["values"], inp["k"])
+    if r is not None:
+        raise deal.PostContractError("C18(agreement): " + r)
+    return True
 
 
 def c18_agree_case(inp):
